@@ -161,6 +161,15 @@ void Task::operator()() const {
     while (!g.release.load(std::memory_order_relaxed)) {
       dispenso::detail::cpuRelax();
     }
+  } else if (act == A_CHAIN || act == A_TS_CHAIN_OWNER) {
+    int sIn = tl.inSubmit, sW = tl.inWait, sF = tl.fqN;
+    tl.inSubmit = 0;
+    tl.inWait = 0;
+    if (act == A_CHAIN) runChain(*this);
+    else runTsChainOwner(*this);
+    tl.inSubmit = sIn;
+    tl.inWait = sW;
+    tl.fqN = sF;
   } else if (act == A_PHASED) {
     g.phasedStarted.store(1, std::memory_order_relaxed);
     while (g.phase.load(std::memory_order_relaxed) < 1) dispenso::detail::cpuRelax();
